@@ -303,3 +303,152 @@ theorem stuck_iff (net : Net n) (s : NSt n) : stuckB net s = true ↔ stuck net 
     simp [h l]
 
 end SciVerif.Net
+
+/-! ### without balance: the only way to get stuck is an abandoned port (F20) -/
+namespace SciVerif.Net
+
+variable {n : Nat}
+
+/-- what holds in every reachable state of any network, balanced or not -/
+structure Inv0 (net : Net n) (s : NSt n) : Prop where
+  fc  : ∀ v, s.f v ≤ s.c v
+  cin : ∀ v u, u ∈ net.ins v → s.c v ≤ s.f u
+  src : ∀ v, (net.ins v).isEmpty = true → s.c v ≤ net.src v
+
+theorem inv0_init (net : Net n) : Inv0 net (init n) :=
+  ⟨fun _ => Nat.le_refl _, fun _ _ _ => Nat.le_refl _, fun _ _ => Nat.zero_le _⟩
+
+theorem step_inv0 (net : Net n) (s s' : NSt n) (l : Lbl n) (h : Inv0 net s) (hs : step net s l = some s') :
+    Inv0 net s' := by
+  cases l with
+  | create v =>
+    simp only [step] at hs
+    split at hs
+    · rename_i hg
+      simp at hs; subst hs
+      simp only [canCreate, Bool.and_eq_true, Bool.not_eq_true'] at hg
+      obtain ⟨_, hg⟩ := hg
+      refine ⟨?_, ?_, ?_⟩
+      · intro w
+        by_cases hw : w = v
+        · subst hw; simp; have := h.fc w; omega
+        · simp [upd_other _ _ _ _ hw]; exact h.fc w
+      · intro w u hu
+        by_cases hw : w = v
+        · subst hw
+          simp only [upd_same]
+          split at hg
+          · rename_i hsrc
+            have : net.ins w = [] := List.isEmpty_iff.1 hsrc
+            rw [this] at hu; simp at hu
+          · have := List.all_eq_true.1 hg u hu
+            simp at this; omega
+        · simp [upd_other _ _ _ _ hw]; exact h.cin w u hu
+      · intro w hw
+        by_cases hwv : w = v
+        · subst hwv
+          simp only [upd_same]
+          simp only [hw, if_true] at hg
+          simp at hg; omega
+        · simp [upd_other _ _ _ _ hwv]; exact h.src w hw
+    · simp at hs
+  | forward v =>
+    simp only [step] at hs
+    split at hs
+    · rename_i hg
+      simp at hs; subst hs
+      simp only [canForward, Bool.and_eq_true, decide_eq_true_eq] at hg
+      obtain ⟨hlt, _⟩ := hg
+      refine ⟨?_, ?_, h.src⟩
+      · intro w
+        by_cases hw : w = v
+        · subst hw; simp; omega
+        · simp [upd_other _ _ _ _ hw]; exact h.fc w
+      · intro w u hu
+        by_cases hu' : u = v
+        · subst hu'; simp; have := h.cin w u hu; omega
+        · simp [upd_other _ _ _ _ hu']; exact h.cin w u hu
+    · simp at hs
+  | terminate v =>
+    simp only [step] at hs
+    split at hs
+    · simp at hs; subst hs; exact ⟨h.fc, h.cin, h.src⟩
+    · simp at hs
+
+theorem run_inv0 (net : Net n) (ls : List (Lbl n)) :
+    ∀ s s', Inv0 net s → run net s ls = some s' → Inv0 net s' := by
+  induction ls with
+  | nil => intro s s' h hr; simp [run] at hr; subst hr; exact h
+  | cons l ls ih =>
+    intro s s' h hr
+    simp only [run] at hr
+    split at hr
+    · simp at hr
+    · rename_i s1 hs1
+      exact ih s1 s' (step_inv0 net s s1 l h hs1) hr
+
+/-- in a stuck state, below every unreturned process there is an abandoned port: an unreturned process `v`
+and a *returned* consumer `w` of `v` that left at least `B` of `v`'s items unread -/
+theorem stuck_root_cause (net : Net n) (hac : acyclic net) (hB : 1 ≤ net.B) (s : NSt n) (h : Inv0 net s)
+    (hst : stuck net s) :
+    ∀ v0, s.term v0 = false →
+      ∃ v w, v ∈ net.ins w ∧ s.term v = false ∧ s.term w = true ∧ s.c w + net.B ≤ s.f v := by
+  suffices H : ∀ (k r : Nat) (v : Fin n), s.f v = k → v.val = r → s.term v = false →
+      ∃ v w, v ∈ net.ins w ∧ s.term v = false ∧ s.term w = true ∧ s.c w + net.B ≤ s.f v from
+    fun v0 hv0 => H _ _ v0 rfl rfl hv0
+  intro k
+  induction k using Nat.strongRecOn with
+  | _ k ihk =>
+    intro r
+    induction r using Nat.strongRecOn with
+    | _ r ihr =>
+      intro v hk hr hterm
+      by_cases hlt : s.f v < s.c v
+      · have hf := hst (.forward v)
+        simp only [step] at hf
+        split at hf
+        · simp at hf
+        · rename_i hnf
+          simp only [canForward, hlt, decide_true, Bool.true_and, Bool.not_eq_true] at hnf
+          rw [List.all_eq_false] at hnf
+          obtain ⟨w, hw, hfull⟩ := hnf
+          simp at hfull
+          have hvw : v ∈ net.ins w := (mem_outs net v w).1 hw
+          cases hwt : s.term w with
+          | true => exact ⟨v, w, hvw, hterm, hwt, hfull⟩
+          | false => exact ihk (s.f w) (by have := h.fc w; omega) _ w rfl rfl hwt
+      · have hcf : s.c v = s.f v := by have := h.fc v; omega
+        have hc := hst (.create v)
+        have ht := hst (.terminate v)
+        simp only [step] at hc ht
+        split at hc
+        · simp at hc
+        · rename_i hnc
+          split at ht
+          · simp at ht
+          · rename_i hntm
+            simp only [canCreate, hterm, Bool.not_false, Bool.true_and] at hnc
+            simp only [canTerm, hterm, Bool.not_false, Bool.true_and, hcf, beq_self_eq_true] at hntm
+            split at hnc
+            · rename_i hsrc
+              exfalso
+              simp only [hsrc, if_true] at hntm
+              simp at hnc hntm
+              have := h.src v hsrc
+              omega
+            · rename_i hne
+              simp only [hne, if_false] at hntm
+              simp only [Bool.not_eq_true] at hnc
+              rw [List.all_eq_false] at hnc
+              obtain ⟨u, hu, hempty⟩ := hnc
+              simp at hempty
+              have hfu : s.f u = s.f v := by have := h.cin v u hu; omega
+              cases hut : s.term u with
+              | true =>
+                exfalso
+                have : ((net.ins v).any fun u => s.term u && s.f u == s.f v) = true :=
+                  List.any_eq_true.2 ⟨u, hu, by simp [hut, hfu]⟩
+                simp [this] at hntm
+              | false => exact ihr u.val (by have := hac v u hu; omega) u (by omega) rfl hut
+
+end SciVerif.Net
